@@ -56,6 +56,14 @@ CLAIMED = {
             "for every (group, letter) crystal with and without anchor the flag must equal 'all Hall-database operations proper' in every presentation (supercells, shears, rotations, permutations)",
             "same bounded family as C05",
             "DESIGN.md §4 C15"),
+    "C01": ("explicit-state enumeration of the real merge/localize/clean pipeline on a synthetic alphabet + deviation-bounded exploration of the SBC seed-choice tree over complete structure families",
+            "seam: every synthetic input within the stated bounds is executed on the real post-processing functions and the set invariants are evaluated on every output; end to end: every structure of the listed families is clustered under every seed-choice script within the deviation bound (scripted chooser replacing the RNG) and every invariant of the statement is evaluated on every result, including input immutability and run-to-run determinism",
+            "bounded families (<=54 atoms, single deviations quick / pairs thorough), parameter deviations one at a time; connectivity judged with brute-force MIC on the input; numpy.random.default_rng intercepted inside matid.clustering.sbc",
+            "DESIGN.md §4 C01"),
+    "C13": ("deviation-bounded exploration of SBC outputs x call histories on the Cluster object, differential against the public function",
+            "for every cluster of every explored SBC run (the C01 families, incl. those where cleaning removes atoms) and every listed call history, the shortcut's value is compared with get_dimensionality on the cluster's atoms with the radii/threshold used",
+            "same bounded families as C01; differential oracle (correctness of the reference function itself is C09)",
+            "DESIGN.md §4 C13"),
 }
 NA_REASON = "check not built yet in this round; see DESIGN.md §7 order of work"
 
